@@ -37,19 +37,13 @@ mod verif_dom_entry {
         let idx: usize = kani::any();
         kani::assume(idx <= len + 1);
         p.read.set_index(idx);
-        kani::cover!(a < len && idx == len);
+        kani::cover!(len < 1 || (a < len && idx == len));
         Err(p.error(ErrorCode::InvalidJsonValue))
     }
 
-    /// Bounded stand-in in the input length (<= 4 symbolic bytes, both configurations).
-    #[kani::proof]
-    #[kani::unwind(8)]
-    #[kani::stub(crate::parser::Parser::<R>::parse_dom, parse_dom_model)]
-    #[kani::stub(crate::error::Error::syntax, syntax_model)]
-    #[kani::stub(crate::value::tls_buffer::TlsBuf::with_capacity, crate::value::tls_buffer::verif_tls_model::with_capacity_heap)]
-    fn dom_entry_error_position() {
-        let buf: [u8; 3] = kani::any();
-        let len: usize = 3;
+    /// One input length N, all byte contents, both configuration flags.
+    fn dom_entry_case<const N: usize>() {
+        let buf: [u8; N] = kani::any();
         let json = &buf[..];
         let cfg = DeserializeCfg { use_rawnumber: kani::any(), utf8_lossy: kani::any() };
         let mut v = Value::new();
@@ -57,10 +51,10 @@ mod verif_dom_entry {
             Ok(_) => assert!(false), // the model has error outcomes only
             Err(e) => {
                 let off = e.offset();
-                assert!(off <= len);
+                assert!(off <= N);
                 let (mut line, mut col) = (1usize, 0usize);
                 let mut k = 0;
-                while k < 3 {
+                while k < N {
                     if k < off {
                         if buf[k] == b'\n' { line += 1; col = 0; } else { col += 1; }
                     }
@@ -68,10 +62,40 @@ mod verif_dom_entry {
                 }
                 assert!(e.line() == line);
                 assert!(e.column() == col);
-                kani::cover!(line == 2);
+                kani::cover!(N < 1 || line == 2);
                 std::mem::forget(e);
             }
         }
         std::mem::forget(v);
     }
+
+    /// Bounded stand-in in the input length (1, 2, 3 and 4 symbolic bytes; CBMC does not finish with a symbolic
+    /// length because of the `Vec` growth in parse_with_padding).
+    #[kani::proof]
+    #[kani::unwind(8)]
+    #[kani::stub(crate::parser::Parser::<R>::parse_dom, parse_dom_model)]
+    #[kani::stub(crate::error::Error::syntax, syntax_model)]
+    #[kani::stub(crate::value::tls_buffer::TlsBuf::with_capacity, crate::value::tls_buffer::verif_tls_model::with_capacity_heap)]
+    fn dom_entry_error_position() { dom_entry_case::<3>(); }
+
+    #[kani::proof]
+    #[kani::unwind(8)]
+    #[kani::stub(crate::parser::Parser::<R>::parse_dom, parse_dom_model)]
+    #[kani::stub(crate::error::Error::syntax, syntax_model)]
+    #[kani::stub(crate::value::tls_buffer::TlsBuf::with_capacity, crate::value::tls_buffer::verif_tls_model::with_capacity_heap)]
+    fn dom_entry_error_position_len1() { dom_entry_case::<1>(); }
+
+    #[kani::proof]
+    #[kani::unwind(8)]
+    #[kani::stub(crate::parser::Parser::<R>::parse_dom, parse_dom_model)]
+    #[kani::stub(crate::error::Error::syntax, syntax_model)]
+    #[kani::stub(crate::value::tls_buffer::TlsBuf::with_capacity, crate::value::tls_buffer::verif_tls_model::with_capacity_heap)]
+    fn dom_entry_error_position_len2() { dom_entry_case::<2>(); }
+
+    #[kani::proof]
+    #[kani::unwind(8)]
+    #[kani::stub(crate::parser::Parser::<R>::parse_dom, parse_dom_model)]
+    #[kani::stub(crate::error::Error::syntax, syntax_model)]
+    #[kani::stub(crate::value::tls_buffer::TlsBuf::with_capacity, crate::value::tls_buffer::verif_tls_model::with_capacity_heap)]
+    fn dom_entry_error_position_len4() { dom_entry_case::<4>(); }
 }
